@@ -598,7 +598,8 @@ func (f *field) pattern() string {
 		s := f.b[i]
 		if f.quote[i] {
 			for {
-				i := strings.IndexAny(s, `?*[\`)
+				// also what is special inside a bracket expression
+				i := strings.IndexAny(s, `?*[\]!^-`)
 				if i == -1 {
 					b.WriteString(s)
 					break
